@@ -60,7 +60,12 @@ def remembered_matches(V, mc):
 
 def build(V, driver="Canonical", table="d", n=2, fixed=(), check=False, calc="caching", molecular=False, preselect=False, coin=False, nexch=None):
     """Simulation in an arbitrary validated state (shared with C04/C05/C12)."""
-    atoms = mcsim.make_atoms(V, n, momenta=True, extras=True, fixed=fixed)
+    fixcom = fixed == "com"
+    atoms = mcsim.make_atoms(V, n, momenta=True, extras=True, fixed=() if fixcom else fixed)
+    if fixcom:
+        from ase.constraints import FixCom
+
+        atoms.set_constraint(FixCom())  # couples all atoms: a displaced atom shifts every other one
     pes = mcsim.PES(V)
     atoms.calc = mcsim.ModelCalc(calc, pes)
     labels = mcsim.labels_for(V, n, -1, 1 if n <= 2 else 2, molecular=molecular)
@@ -94,7 +99,7 @@ def build(V, driver="Canonical", table="d", n=2, fixed=(), check=False, calc="ca
 
 
 def sc_trial(V, driver="Canonical", table="d", n=2, fixed=(), check=False, calc="caching", molecular=False, preselect=False, coin=False, nexch=None):
-    sig = f"{driver}:{table}:n={n}:fixed={list(fixed)}:check={check}:mol={molecular}:pre={preselect}"
+    sig = f"{driver}:{table}:n={n}:fixed={fixed if isinstance(fixed, str) else list(fixed)}:check={check}:mol={molecular}:pre={preselect}"
     mc, atoms, pes, move, labels, exch = build(V, driver, table, n, fixed, check, calc, molecular, preselect, coin, nexch)
     # base case of the induction: the invariant holds before the first trial
     b0 = bookkeeping(mc) if not preselect else []
@@ -144,6 +149,8 @@ def _plan(tier):
     P.append(("trial", dict(driver="Canonical", table="d", n=n, fixed=(), check=False), R))
     P.append(("trial", dict(driver="Canonical", table="d", n=2, fixed=(0,), check=True), R + ("failed",)))
     P.append(("trial", dict(driver="Canonical", table="d2", n=2, fixed=(), check=True), R + ("failed",)))
+    P.append(("trial", dict(driver="Canonical", table="d", n=2, fixed="com", check=True), R + ("failed",)))
+    P.append(("trial", dict(driver="Isobaric", table="cell", n=2, fixed="com", check=True), R + ("failed",)))
     P.append(("trial", dict(driver="Canonical", table="d+d", n=2, fixed=(), check=False, preselect=True), R))
     P.append(("trial", dict(driver="Canonical", table="d", n=3, fixed=(), check=False, molecular=True), R))
     P.append(("trial", dict(driver="HamiltonianCanonical", table="h", n=1 if q else 2, fixed=(), check=True), R + ("failed",)))
